@@ -36,6 +36,12 @@ def run_cut(case):
                 events.append(_event("cg", solve_cg(case["demands"], roll_width=W, piece_sizes=case["sizes"], max_iter=mi)))
             except Exception as ex:  # noqa: BLE001
                 events.append({"e": "raise", "solver": "cg", "what": type(ex).__name__})
+        # branch-and-price limits and the relative gap tolerance may end the search early, never license OPTIMAL for a non-minimal plan
+        for kw in case.get("bp_limits", ({"gap_tol": 0.2}, {"gap_tol": 0.5}, {"max_nodes": 1}, {"max_nodes": 3}, {"max_iter": 1}, {"max_iter": 2, "gap_tol": 0.1})):
+            try:
+                events.append(_event("bp", solve_bp(case["demands"], roll_width=W, piece_sizes=case["sizes"], **kw)))
+            except Exception as ex:  # noqa: BLE001
+                events.append({"e": "raise", "solver": "bp", "what": type(ex).__name__})
         return {"kind": "stock", "W": case["W"], "sizes": case["sizes"], "demands": case["demands"], "pool": [], "events": events, "input": case}
     pool = [tuple(c) for c in case["pool"]]
 
@@ -56,6 +62,11 @@ def run_cut(case):
             events.append(_event("cg", solve_cg(case["demands"], pricing_fn=pricing, initial_columns=[list(c) for c in case["initial"]], max_iter=mi)))
         except Exception as ex:  # noqa: BLE001
             events.append({"e": "raise", "solver": "cg", "what": type(ex).__name__})
+    for kw in ({"gap_tol": 0.3}, {"max_nodes": 1}):
+        try:
+            events.append(_event("bp", solve_bp(case["demands"], pricing_fn=pricing, initial_columns=[list(c) for c in case["initial"]], **kw)))
+        except Exception as ex:  # noqa: BLE001
+            events.append({"e": "raise", "solver": "bp", "what": type(ex).__name__})
     return {"kind": "custom", "W": 0, "sizes": [], "demands": case["demands"], "pool": [list(c) for c in pool], "events": events, "input": case}
 
 
